@@ -1,8 +1,15 @@
 package main
 
 import (
+	"cmp"
 	"fmt"
+	"math"
 	"os"
+	"sync/atomic"
+
+	"github.com/emirpasic/gods/v2/queues/priorityqueue"
+	"github.com/emirpasic/gods/v2/trees/binaryheap"
+	"github.com/emirpasic/gods/v2/trees/btree"
 )
 
 // C17: every operation returns normally and silently for every argument. The hostile world drives
@@ -79,6 +86,10 @@ func (w *hostileWorld) Gen(seed uint64, tier string) *Plan {
 			p.Ops = append(p.Ops, Op{ID: id, N: "NestedContainers", A: []int{r.Intn(100)}})
 			continue
 		}
+		if r.P(1, 2500) {
+			p.Ops = append(p.Ops, Op{ID: id, N: "ExtremeConfig", A: []int{r.Intn(1000)}})
+			continue
+		}
 		switch r.Weighted(30, 6, 3, 1) {
 		case 0:
 			p.Ops = append(p.Ops, s.GenHostile(r, id))
@@ -135,6 +146,10 @@ func (w *hostileWorld) Exec(p *Plan, st *RunStats) *Violation {
 				loadVariant(s, op.A[0], op.B)
 			case op.N == "Fresh":
 				s = s.Fresh()
+			case op.N == "ExtremeConfig":
+				o.cur = op
+				extremeConfigProbe(o, op.A[0])
+				o.Kind = p.Cfg.Kind
 			case op.N == "NestedContainers":
 				nestedProbe(o, op.A[0])
 				for _, k := range []string{"treeset", "treemap", "redblacktree", "avltree", "btree", "treebidimap", "binaryheap", "priorityqueue"} {
@@ -177,4 +192,98 @@ func (w *hostileWorld) Exec(p *Plan, st *RunStats) *Violation {
 	st.NonTrivial = hostileArgs >= 1
 	_ = fmt.Sprint
 	return o.V
+}
+
+// extremeConfigProbe (C17): configurations at the far end of what the constructors document as legal, and sizes
+// beyond what the model-compared worlds afford. (a) B-trees of order 2^62, MaxInt-1 and MaxInt (orders for which an allocation proportional to the order is refused
+// with a panic rather than attempted) hold a handful of keys like
+// any other. (b) A heap / priority queue takes one bulk Push and one FromJSON of about 9000 elements under a comparator
+// that is not re-entrant - it notes when it is entered while another call of it is still running. The library is
+// single-goroutine ("not thread safe"), so a caller's comparator never needs to be: a library that enters it from two
+// goroutines at once does not return normally for such comparators (a memo map in it would abort the process).
+func extremeConfigProbe(o *Oracle, salt int) {
+	for _, order := range []int{1 << 62, math.MaxInt - 1, math.MaxInt} {
+		o.Kind = "btree"
+		t := btree.NewWith[int, string](order, func(a, b int) int { return cmp.Compare(a, b) })
+		n := 3 + derive(salt, 1, 40)
+		for i := 0; i < n; i++ {
+			t.Put(derive(salt, 10+i, 50), "v")
+		}
+		t.Get(derive(salt, 2, 50))
+		t.Keys()
+		t.Values()
+		t.Height()
+		_ = t.String()
+		t.ToJSON()
+		for it := t.Iterator(); it.Next(); {
+			it.Key()
+		}
+		for i := 0; i < n; i++ {
+			t.Remove(derive(salt, 100+i, 50))
+		}
+		t.Put(1, "x")
+		t.Clear()
+		t.Put(2, "y")
+		if t.Size() != 1 {
+			o.Fail("C17", "extreme-order", "a B-tree of order %d holds %d keys after Clear and one Put", order, t.Size())
+			return
+		}
+	}
+	var inFlight, overlaps atomic.Int32
+	cmpNR := func(a, b int) int {
+		if inFlight.Add(1) > 1 {
+			overlaps.Add(1)
+		}
+		c := cmp.Compare(a, b)
+		inFlight.Add(-1)
+		return c
+	}
+	n := 8800 + derive(salt, 3, 900)
+	vals := make([]int, n)
+	for i := range vals {
+		vals[i] = int(mix(uint64(salt), uint64(i)) % 100000)
+	}
+	doc := mustJSON(vals)
+	for _, kind := range []string{"binaryheap", "priorityqueue"} {
+		o.Kind = kind
+		var push func(...int)
+		var pop func() (int, bool)
+		var load func([]byte) error
+		if kind == "binaryheap" {
+			h := binaryheap.NewWith[int](cmpNR)
+			push, pop, load = h.Push, h.Pop, h.FromJSON
+		} else {
+			q := priorityqueue.NewWith[int](cmpNR)
+			push = func(vs ...int) {
+				for _, v := range vs[:64] {
+					q.Enqueue(v)
+				}
+			}
+			pop, load = q.Dequeue, q.FromJSON
+		}
+		push(vals...)
+		prev, _ := pop()
+		for i := 0; i < 20; i++ {
+			v, ok := pop()
+			if !ok || v < prev {
+				o.Fail("C17", "big-heap", "%s of %d elements after one bulk Push: Pop returned (%d,%v) after %d", kind, n, v, ok, prev)
+				return
+			}
+			prev = v
+		}
+		load(doc)
+		prev, _ = pop()
+		for i := 0; i < 20; i++ {
+			v, ok := pop()
+			if !ok || v < prev {
+				o.Fail("C17", "big-heap", "%s after loading a document of %d elements: Pop returned (%d,%v) after %d", kind, n, v, ok, prev)
+				return
+			}
+			prev = v
+		}
+		if k := overlaps.Load(); k > 0 {
+			o.Fail("C17", "comparator-entered-concurrently", "%s with %d elements: the caller's comparator was entered %d times while another call of it was still running - the library calls it from several goroutines, and a comparator that is not re-entrant (nothing says it must be) makes the operation crash or answer wrongly", kind, n, k)
+			return
+		}
+	}
 }
